@@ -294,7 +294,36 @@ func (vc *VC) frameGoal(k string, cur Term) (string, bool) {
 
 // frameObligations: every heap written on some path is unchanged outside the declared frame.
 func (vc *VC) frameObligations(final *State) {
-	if vc.contract == nil || final.dead || vc.frame().everything {
+	if vc.contract == nil || final.dead {
+		return
+	}
+	// ghost package state not named in a modifies clause must be unchanged
+	listed := map[string]bool{}
+	for _, m := range vc.contract.Modifies {
+		if id, ok := m.Expr.(*SIdent); ok {
+			listed[id.Name] = true
+		}
+	}
+	var gnames []string
+	for n := range vc.eng.ghostVars {
+		gnames = append(gnames, n)
+	}
+	sort.Strings(gnames)
+	for _, n := range gnames {
+		obj := vc.eng.ghostVarObj[n]
+		cur, ok := final.vars[obj]
+		if !ok || listed[n] || listed["everything"] {
+			continue
+		}
+		ent := vc.readGhostVar(vc.entry, vc.eng.ghostVars[n])
+		if ent.S == cur.S {
+			continue
+		}
+		o := &Obligation{Name: fmt.Sprintf("%s#frame[ghost %s]", vc.unit.Key, n), Kind: "frame", Unit: vc.unit.Key, Pos: vc.position(vc.unit.Body.Pos()),
+			Desc: "ghost state " + n + " is not in the modifies clause and must be unchanged", NFacts: len(vc.facts), Guard: final.guard, Goal: sEq(cur.S, ent.S), vc: vc}
+		vc.obls = append(vc.obls, o)
+	}
+	if vc.frame().everything {
 		return
 	}
 	var names []string
